@@ -49,32 +49,44 @@ fn verif_witness_search() {
       }
     }
   }
-  for (collector, read) in [(None, false), (Some(u), false), (Some(u), true)] {
-    let mut stmts = vec![Statement::Call {
-      callee: Callee::FunctionName(fn_name.clone()),
-      arguments: vec![var(a)],
-      return_type: INT_32_TYPE,
-      return_collector: collector,
-    }];
-    let mut set = HashSet::new();
-    collect_use_from_expression(&if read { var(u) } else { ZERO }, &mut set);
-    optimize_stmts(&mut stmts, &mut set);
-    checked += 1;
-    match stmts.first() {
-      Some(Statement::Call { return_collector, .. }) => {
-        if read && return_collector.is_none() {
-          println!("WITNESS: dead-code elimination dropped the result binding `u` of a call although `u` is returned");
+  // a call to an ordinary function and to every runtime function (a "pure looking" builtin can still trap or print)
+  let mut callees = vec![fn_name.clone()];
+  for name in [
+    FunctionName::PROCESS_PRINTLN, FunctionName::PROCESS_PANIC, FunctionName::STR_FROM_INT, FunctionName::STR_TO_INT,
+    FunctionName::STR_CONCAT, FunctionName::STR_EQ, FunctionName::VEC_EMPTY, FunctionName::VEC_OF,
+    FunctionName::VEC_WITH_CAPACITY, FunctionName::VEC_LENGTH, FunctionName::VEC_CAPACITY, FunctionName::VEC_RESERVE,
+    FunctionName::VEC_PUSH, FunctionName::VEC_POP, FunctionName::VEC_GET, FunctionName::VEC_SET, FunctionName::VEC_EQ,
+  ] {
+    callees.push(FunctionNameExpression { name, type_: Type::new_fn_unwrapped(vec![INT_32_TYPE], INT_32_TYPE) });
+  }
+  for callee in callees {
+    for (collector, read) in [(None, false), (Some(u), false), (Some(u), true)] {
+      let mut stmts = vec![Statement::Call {
+        callee: Callee::FunctionName(callee.clone()),
+        arguments: vec![var(a)],
+        return_type: INT_32_TYPE,
+        return_collector: collector,
+      }];
+      let mut set = HashSet::new();
+      collect_use_from_expression(&if read { var(u) } else { ZERO }, &mut set);
+      optimize_stmts(&mut stmts, &mut set);
+      checked += 1;
+      match stmts.first() {
+        Some(Statement::Call { return_collector, .. }) => {
+          if read && return_collector.is_none() {
+            println!("WITNESS: dead-code elimination dropped the result binding `u` of a call although `u` is returned");
+            return;
+          }
+          if !set.contains(&a) {
+            println!("WITNESS: dead-code elimination kept a call but did not record its argument a as used");
+            return;
+          }
+        }
+        _ => {
+          println!("WITNESS: dead-code elimination removed a call to {} (result {}): a call may print, trap or not return",
+            callee.name.encoded_for_test(heap, table), if collector.is_some() { "bound but unread" } else { "unbound" });
           return;
         }
-        if !set.contains(&a) {
-          println!("WITNESS: dead-code elimination kept a call but did not record its argument a as used");
-          return;
-        }
-      }
-      _ => {
-        println!("WITNESS: dead-code elimination removed a call (result {}): a call may print, trap or not return",
-          if collector.is_some() { "bound but unread" } else { "unbound" });
-        return;
       }
     }
   }
